@@ -1,7 +1,8 @@
 #!/bin/sh
 # tools/seedtest.sh ID N "C01 C02 ..."  -- verify a seeded change (patchN of /tmp/seed-ID-out) and run checks against it
 ID=$1; N=$2; CHECKS=${3:-$ID}; TIER=${4:-quick}
-WT=/tmp/seed-$ID; OUT=/tmp/seed-$ID-out
+PFX=${PFX:-seed}
+WT=/tmp/$PFX-$ID; OUT=/tmp/$PFX-$ID-out
 git -C $WT checkout -q -- . || exit 2
 git -C $WT apply $OUT/patch$N.diff || { echo "PATCH DOES NOT APPLY"; exit 2; }
 echo "--- diffstat"; git -C $WT diff --stat | tail -3
